@@ -31,7 +31,8 @@ func init() {
 			"Payloads: valid, invalid, and valid-in-isolation-but-invalid-in-combination (drop the minter's current period, raise one share so the sum reaches 1, remove the MAIN-source sub-distributor, duplicate names, vesting denom change while pools exist). Authorities: governance, another account, empty, malformed. " +
 			"Routes: the governance execution path (ValidateBasic + registered handler on a branched context), real MsgSubmitProposal/MsgVote executed by x/gov, real signed DeliverTx from non-authority signers (authority = the signer; authority = gov but signed by somebody else), and for foreign / empty / malformed authorities also the routed handler and the module's MsgServer called directly. " +
 			"Oracle after every message: a non-governance message changes nothing (full snapshot); a rejected message leaves the raw params bytes of all three modules untouched; the stored params decode and pass the module's own Validate(); minter params contain the current MinterState.SequenceId; the vesting denom never changes while pools exist. " +
-			"Non-trivial: >=1 accepted and >=1 rejected governance update and >=1 non-governance attempt that reached DeliverTx. Distinct by sequence hash.",
+			"Non-trivial: >=1 accepted and >=1 rejected governance update and >=1 non-governance attempt that reached DeliverTx. Distinct by sequence hash." +
+			" One governance update in eight goes to the module's message server on the block's own context (no branch to discard): a refused update must not have written anything.",
 		Cases:         func(t string) int { return tierN(t, 384, 8000) },
 		MinNontrivial: func(t string) int { return tierN(t, 160, 3000) },
 		Run:           runC13,
